@@ -377,6 +377,59 @@ def apiStep {σ μ : Type} (rk : RadioKindOps σ μ) (c : ApiCall μ) (env : Env
                      log := [], step := 0, fault := env.fault, pendAt := env.pendAt }
   apiProg rk c (s.1, w)
 
+/-! ## `LorawanRadio` (lora-phy/src/lorawan_radio.rs): the LoRaWAN adapter over `LoRa` -/
+
+inductive AdapterCall (μ : Type) where
+  | tx (m : μ) (pkt : PacketParams) (power : Int) (payload : Bytes)
+  | setupRx (mode : RxMode) (m : μ) (pkt : PacketParams)
+  | rxSingle (bufLen : Nat)
+  | rxContinuous (bufLen : Nat)
+  | lowPower
+
+inductive AdapterResult where
+  | unit
+  | rx (n : Nat) (bytes : Bytes)
+  | rxTimeout
+  | noRxParams
+  deriving DecidableEq, Repr
+
+/-- `rx_pkt_params: Option<PacketParams>` — set by a successful `setup_rx` only -/
+structure AdapterState where
+  rxPkt : Option PacketParams := none
+
+def adapterProg {σ μ : Type} (rk : RadioKindOps σ μ) (a : AdapterState) : AdapterCall μ → M σ (AdapterResult × AdapterState)
+  | .tx m pkt power payload => do
+    prepareForTx rk m pkt power payload
+    tx rk LOOP_FUEL
+    pure (.unit, a)
+  | .setupRx mode m pkt => do
+    prepareForRx rk mode m pkt
+    pure (.unit, { a with rxPkt := some pkt })
+  | .rxSingle n =>
+    match a.rxPkt with
+    | none => pure (.noRxParams, a)
+    | some pkt => do
+      let r ← M.attempt (rx rk pkt (List.replicate n 0) LOOP_FUEL)
+      match r with
+      | .ok (len, buf) => pure (.rx len (buf.take len), a)
+      | .error .ReceiveTimeout => pure (.rxTimeout, a)
+      | .error e => M.throw e
+  | .rxContinuous n =>
+    match a.rxPkt with
+    | none => pure (.noRxParams, a)
+    | some pkt => do
+      let (len, buf) ← rx rk pkt (List.replicate n 0) LOOP_FUEL
+      pure (.rx len (buf.take len), a)
+  | .lowPower => do
+    sleep rk false
+    pure (.unit, a)
+
+def adapterStep {σ μ : Type} (rk : RadioKindOps σ μ) (a : AdapterState) (c : AdapterCall μ) (env : Env)
+    (s : DriverState σ × World) : Out (AdapterResult × AdapterState) × (DriverState σ × World) :=
+  let w : World := { chip := { s.2.chip with irqScript := env.irq, irqDefault := env.irqDefault },
+                     log := [], step := 0, fault := env.fault, pendAt := env.pendAt }
+  adapterProg rk a c (s.1, w)
+
 /-! ## the two radio kinds as `RadioKindOps` -/
 
 def sx126xOps (cfg : Sx126x.Config) : RadioKindOps Unit Sx126x.ModulationParams where
